@@ -933,6 +933,17 @@ func c03R1(c *Ctx) {
 				cutHolds, cutNot = append(cutHolds, f), append(cutNot, t)
 				strictEq = false
 			default:
+				// an invariant assertion: one side of the comparison only leads to error returns
+				assertion := false
+				for _, e := range []Edge{t, f} {
+					if !toNext(e.To, 0, nil) && !reach(e.To, 0, fp.(ssa.Instruction), nil) && (rangeMode || c01SuccessReturnFrom(DB, e, nil, nil) == nil) {
+						assertion = true
+					}
+				}
+				if assertion {
+					cutPos = token.NoPos
+					continue
+				}
 				offByOne = "the cut-off uses " + op.String() + " between current.Depth and opts.Depth: nodes at depth opts.Depth are still expanded"
 			}
 		}
@@ -2075,6 +2086,39 @@ func c03CheckFilterLoopY(G *ssa.Function, l *Loop, descMT *types.Var, yield ssa.
 			break
 		}
 		a0 := ap.Call.Args[0]
+		// lazily allocated accumulator: if acc == nil { acc = make([]T, 0, n) }; acc = append(acc, e)
+		if inner, ok := a0.(*ssa.Phi); ok && inner.Block() != l.Header && l.Blocks[inner.Block()] {
+			var hdr *ssa.Phi
+			okLazy := true
+			for _, ev := range inner.Edges {
+				switch u := ev.(type) {
+				case *ssa.Phi:
+					if u.Block() == l.Header && (hdr == nil || hdr == u) {
+						hdr = u
+					} else {
+						okLazy = false
+					}
+				case *ssa.MakeSlice:
+					if k, isK := constInt(u.Len); !isK || k != 0 {
+						okLazy = false
+					}
+				default:
+					okLazy = false
+				}
+			}
+			if okLazy && hdr != nil {
+				// the fresh slice is made only where the accumulator is still nil (nothing kept so far)
+				nilE, _, _ := NilTests(G, Aliases(hdr))
+				for _, ev := range inner.Edges {
+					if mk, isMk := ev.(*ssa.MakeSlice); isMk && (len(nilE) == 0 || !MustPass(mk, newCut().Edges(nilE...))) {
+						okLazy = false
+					}
+				}
+			}
+			if okLazy && hdr != nil {
+				a0 = hdr
+			}
+		}
 		if phi, ok := a0.(*ssa.Phi); ok && phi.Block() == l.Header {
 			if res.accPhi != nil && res.accPhi != phi {
 				res.why = "several accumulators"
